@@ -504,8 +504,9 @@ func (ps *Pieces) Expire(bytes int64, available []uint16, f func(index uint32)) 
 func (ps *Pieces) Del() {
 	ps.mu.Lock()
 	defer ps.mu.Unlock()
+	// del may release the lock, so refuse new data before freeing anything
+	ps.deleted = true
 	for i := uint32(0); i < uint32(len(ps.pieces)); i++ {
 		ps.del(i, true)
 	}
-	ps.deleted = true
 }
